@@ -139,7 +139,13 @@ def binding : Trace.Binding proto :=
       | _, _ => none
     retOf := fun l => match l with
       | .done r _ => some [r]
-      | _ => none }
+      | _ => none
+    -- declared orders of rw_lock_impl.h: every RMW on the lock word is acq_rel, waits load with acquire
+    reqOrder := fun l => match l with
+      | .lkOr | .tlOr | .tlRollback | .ulAnd | .lsAdd | .lsRelease | .tsAdd | .tsRelease | .usSub | .upOr | .upSub
+      | .dgAdd | .dgAnd => 4
+      | .wLoad | .tlSpin _ | .lsSpin => 2
+      | _ => 0 }
 
 def init : State proto := initState proto L.idle (fun _ => 0)
 
